@@ -160,7 +160,7 @@ package sstables
 //@      (!isnil(w.lastKey) ==> !isnil(w.metaData.MinKey) && arr(w.lastKey) != arr(w.metaData.MinKey))
 
 //@ func (*SSTableStreamWriter).WriteNext
-//@   props C15 C11
+//@   props C15 C11 C03
 //@   replay stream_writer_writenext
 //@   requires [writer-opened] swReady(writer)
 //@   ensures [stays-ready] swReady(writer)
